@@ -171,12 +171,13 @@ def classify (fields : List Fld) : Kind :=
 abbrev DV := XV
 
 /-- `para.to_dict()` without line numbers -/
+def extraOut : DV → DV
+  | .s v => .s (if v.isEmpty then v else asFormattedText v)
+  | .emptyList => .emptyList
+
 def toDict (p : Para) : List (Str × DV) :=
   let known : List (Str × DV) := p.fields.map fun nf => (nf.1, .s (dumps nf.2))
-  p.extra.foldl (fun d nv =>
-    lset d nv.1 (match nv.2 with
-      | .s v => .s (if v.isEmpty then v else asFormattedText v)
-      | .emptyList => .emptyList)) known
+  p.extra.foldl (fun d nv => lset d nv.1 (extraOut nv.2)) known
 
 def dvTruthy : DV → Bool
   | .s v => !v.isEmpty
@@ -311,11 +312,13 @@ def fromText (t : Str) : Except PyExc (List Para) := fromFieldsGroups (parse t)
 def isAsciiStr (s : Str) : Bool := s.all fun c => c.toNat < 128
 
 /-- `BaseParagraph.dumps()` -/
+def dumpedEntry (kv : Str × DV) : Option (Str × Str) :=
+  match kv.2 with
+  | .s v => if !v.isEmpty && !isBlank v then some (kv.1, v) else none
+  | .emptyList => none
+
 def baseDumps (p : Para) : Except PyExc Str :=
-  let entries := (toDict p).filterMap fun kv =>
-    match kv.2 with
-    | .s v => if !v.isEmpty && !isBlank v then some (kv.1, v) else none
-    | .emptyList => none
+  let entries := (toDict p).filterMap dumpedEntry
   if entries.any (fun kv => !isAsciiStr kv.1) then .error .outOfModel else
   .ok (strip (joinNl (entries.map fun kv =>
     Model.Control.normalizeName (replaceChar '_' '-' kv.1) ++ ':' :: ' ' ::
